@@ -16,8 +16,8 @@ claim("C12", "Coq proof (XOR-checksum and CRC-32 injectivity per byte, block acc
 claim("C01", "Coq proof (generic buffered-vs-ideal refinement instantiated for the MSZIP/LZX/Quantum ports; CAB block reader = honest stream; stored-folder extraction exact) + model/C differential + generated cabinets and sets through the real API",
       "Proof: for each ported CAB decoder, every input, every output-length hint and every buffer size > 0, the buffered run on an honest host equals the run on the ideal byte source; the CAB block reader (cabd_sys_read / cabd_sys_read_block with checksums, reserves, Quantum trailer) is an honest stream over the concatenated block payloads, so MSZIP / Quantum / uncompressed decoding behind it equals the ideal run for every DECOMPBUF; extract() of any member of an uncompressed folder returns exactly its bytes; open() reads back header, folder and file tables exactly. Model/Cab.v (open + extract sessions for one cabinet, strict and salvage) is run against the C library on intact and damaged cabinets. LZX behind the block reader (late output-length hint), cabinet sets and FIXMSZIP recovery are covered by correspondence / oracle only. The ports are compared with the C decoders on generated and damaged streams; generated cabinets/sets (all methods, reserves, split points, parameter settings) are listed and extracted through the real API and compared with the generator. Round-trip theorems for deflate/LZX/Quantum encoders are not proved (payload correctness rests on the correspondence); default stdio system: not modelled.",
       NOTE, "4/C01")
-claim("C05", "Coq proof (LZSS round trip for all token streams and dialects; callback port refines the pure decoder for every buffer size) + model/C differential",
-      "Proof: lzss_roundtrip, lzss_impl_refines_spec, lzss_end_to_end (closed). Tie: the pure decoder vs the C lzss_decompress on encoder output, damaged and random streams at several buffer sizes; SZDD/KWAJ files built by the generator are opened/extracted through the real API and compared with the generator's header fields and plaintext (KWAJ LZH / MSZIP payloads by correspondence only).",
+claim("C05", "Coq proof (LZSS round trip for all token streams and dialects; callback port refines the pure decoder for every buffer size; KWAJ header reader reads back every writable header; whole-file theorems for stored/XOR/SZDD KWAJ) + model/C differential",
+      "Proof: lzss_roundtrip, lzss_impl_refines_spec, lzss_end_to_end, kwaj_open_enc, kwaj_file_none, kwaj_xor_roundtrip, KWAJ SZDD file round trip (all closed). Tie: the pure decoder vs the C lzss_decompress on encoder output, damaged and random streams at several buffer sizes; Model/Kwaj.v (headers + extract for NONE/XOR/SZDD/MSZIP) vs kwajd.c on generated and damaged KWAJ files; SZDD/KWAJ files built by the generator are opened/extracted through the real API and compared with the generator's header fields and plaintext (KWAJ MSZIP payload by correspondence only, LZH by generator oracle only).",
       NOTE, "4/C05")
 
 claim("C09", "Coq proof (Hoare logic over a ledger monitor, for every host) on the SZDD/LZSS port + L2 model/C callback correspondence with fault injection + fault sweep of the C library",
